@@ -43,7 +43,14 @@ ASSUME = [
 
 # Real defects of /repo that are reproduced by this check and awaiting a decision by the coordinator.
 # Narrow structural matches only; see the final report.  (Empty: none found.)
-PENDING_FINDINGS = []
+PENDING_FINDINGS = [
+    # Literal-reading deviation on NaN counts (floating reps): std::chrono defines `a <= b` as `!(b < a)` and `a >= b` as
+    # `!(a < b)`, so `duration<float>{NaN} <= 1ms` is TRUE inside chrono, while Au compares the stored values with the
+    # built-in `<=` / `>=` (quantity.hh:253,255) and answers FALSE (the IEEE answer).  Only these two operators with a
+    # NaN operand are filtered; ==, !=, <, >, +, - agree with chrono on NaN, and inf / -0.0 agree for every operator.
+    {"kind": "op", "special": True, "nan_operand": True, "op": "le"},
+    {"kind": "op", "special": True, "nan_operand": True, "op": "ge"},
+]
 
 REPS = ["i32", "i64", "f32", "f64"]
 CTYPE = {"i32": "int32_t", "i64": "int64_t", "f32": "float", "f64": "double"}
@@ -890,7 +897,7 @@ def ti(t):
 
 def write_value_harness(wd, types, pairs, nchunks):
     files = []
-    tch = [types[i::4] for i in range(4)]
+    tch = [types[i::8] for i in range(8)]
     tch = [c for c in tch if c]
     pch = [pairs[i::nchunks] for i in range(nchunks)]
     pch = [c for c in pch if c]
@@ -1587,7 +1594,7 @@ def check_op_special(pr, x1, x2, r, cfg, violations, stats):
     stats["special_value_cases"] = stats.get("special_value_cases", 0) + 1
     stats["op_evaluations"] += 8
     base = {"kind": "op", "a": type_key(a), "b": type_key(b), "x1": to_cxx(a["rep"], x1), "x2": to_cxx(b["rep"], x2),
-            "shape": side_code_of(pr), "config": cfg, "special": True}
+            "shape": side_code_of(pr), "config": cfg, "special": True, "nan_operand": "nan" in (x1, x2)}
     for op in OPS:
         au, ch = r[f"au_{op}"], r[f"ch_{op}"]
         if au == "unavailable":
@@ -1684,6 +1691,24 @@ def replay(path):
         a, b = mk(r["a"], 0), mk(r["b"], 1)
         side, spell = shape_parts(r["shape"])
         pr = {"id": 0, "a": a, "b": b, "side": side, "spell": spell}
+        if r.get("special"):
+            files = write_value_harness(wd, [a, b], [dict(pr, vals=[])], 1)
+            exe, err = build(wd, files, compiler, std, "rp", opt="-O0")
+            if exe is None:
+                print("replay: harness does not build:\n", err["output"][-2000:])
+                print(f"VIOLATION property={PROP} replay={path} no-failing-input-found")
+                return 1
+            ans, _ = run_lines(exe, [f"O 0 {r['x1']} {r['x2']}"], shards=1)
+            print("impl  :", ans[0])
+            sp = lambda rep, x: x if x in ("nan", "inf", "-inf", "-0x0p+0") else parse_cxx(rep, x)
+            check_op_special(pr, sp(a["rep"], r["x1"]), sp(b["rep"], r["x2"]), kv(ans[0]), " ".join(cfg), viol, stats, )
+            for v in viol:
+                print(" -", v["what"])
+            if viol:
+                print(f"VIOLATION property={PROP} replay={path}")
+                return 1
+            print("replay: property holds on this case")
+            return 0
         x1 = int(r["x1"]) if is_int(a["rep"]) else Fraction(r["x1"])
         x2 = int(r["x2"]) if is_int(b["rep"]) else Fraction(r["x2"])
         req = (f"c17ops {model_shape(r['shape'])} {a['rep']} {a['n']} {a['d']} {r['x1']} {b['rep']} {b['n']} {b['d']} {r['x2']}")
